@@ -69,7 +69,11 @@ def rand_graph(rng, n, dag):
 
 
 # ------------------------------------------------------------------ item-set generator
-CONTAINERS = ['plain', 'vec', 'option', 'hashmap', 'array', 'slice', 'known_generic', 'unknown_generic', 'deep_generic', 'nested']
+# every position a reference can stand in.  Since the repair of the Generic arm of get_dependencies_from_type (fix 25) the
+# arguments of every generic type - typeshared or not, nested or not, second and later arguments - are followed, so all of
+# these are ordinary shapes for the plain sets too.
+CONTAINERS = ['plain', 'vec', 'option', 'hashmap', 'array', 'slice', 'known_generic', 'unknown_generic', 'deep_generic', 'nested',
+              'two_args', 'generic_in_generic', 'deep_unknown']
 
 
 def wrap(rng, how, target, gen_name):
@@ -92,14 +96,23 @@ def wrap(rng, how, target, gen_name):
         return ir.generic('Unknown', [t])
     if how == 'deep_generic' and gen_name:
         return ir.generic(gen_name, [ir.special('Vec', t)])
+    if how == 'two_args':               # G<String, t> / Unknown<u8, Vec<t>>: the later argument carries the reference
+        return ir.generic(gen_name or 'Unknown', [ir.special('String'), rng.choice([t, ir.special('Vec', t)])])
+    if how == 'generic_in_generic':     # G<G<t>> / Unknown<G<t>> / G<Unknown<t>>
+        inner = ir.generic(rng.choice([gen_name or 'Unknown', 'Unknown']), [t])
+        return ir.generic(rng.choice([gen_name or 'Unknown', 'Unknown']), [inner])
+    if how == 'deep_unknown':           # Unknown<Vec<Option<Other<HashMap<String, t>>>>>
+        return ir.generic('Unknown', [ir.special('Vec', ir.special('Option', ir.generic('Other', [ir.special('HashMap', ir.special('String'), t)])))])
     return ir.special('Vec', ir.special('Option', ir.special('HashMap', ir.special('String'), t)))
 
 
 def gen_items(rng, tricky):
     n = rng.randint(2, 12)
     names = [f'T{i}' for i in range(n)]
-    # names the collectors look up although they are no reference: a generic parameter (T), the id() of a
-    # special type standing as an argument of a typeshared generic (Vec, Option, HashMap, String, u8, [], &[])
+    # an item named like a generic parameter (T) is looked up although the parameter is no reference (open class
+    # C11-generic-param-shadow); an item named like the id() of a special type (Vec, Option, HashMap, String, u8) was looked up
+    # too when that special type stood as an argument of a typeshared generic (C11-special-id-collision, repaired by fix 25:
+    # such names are ordinary item names now)
     shadow = tricky and rng.random() < 0.12
     if shadow:
         for nm in rng.sample(['T', 'T', 'Vec', 'Option', 'HashMap', 'String', 'u8'], rng.choice([1, 1, 2])):
@@ -123,8 +136,9 @@ def gen_items(rng, tricky):
         refs = []
         for _ in range(nrefs):
             tgt = rng.choice(cands)
-            how = rng.choice(CONTAINERS if tricky else ['plain', 'vec', 'option', 'hashmap', 'known_generic', 'nested'])
-            gname = rng.choice([g for g in gstructs if g != nm or (tricky and rng.random() < 0.3)] or [None])
+            how = rng.choice(CONTAINERS)
+            # a generic struct may mention itself with arguments (struct nm<T> { f: nm<tgt> }): its arguments are followed too
+            gname = rng.choice([g for g in gstructs if g != nm or rng.random() < 0.3] or [None])
             use = renamed[tgt] if (tricky and rng.random() < 0.5) else tgt
             refs.append(wrap(rng, how, use, gname))
         idd = ir.mk_id(nm, renamed[nm], renamed[nm] != nm)
@@ -193,11 +207,35 @@ def _struct(nm, tys, gens=()):
 
 
 def pinned_sets():
-    """Former witnesses of the findings repaired in get_enum_dependencies (KNOWN_FINDINGS.jsonl: C11-variant-fields,
-    C11-enum-self-edge, status fixed) and of Props.C11_*_fixed. They are outside every class now and must PASS: a
+    """Former witnesses of the repaired findings (KNOWN_FINDINGS.jsonl, status fixed: C11-variant-fields and
+    C11-enum-self-edge in get_enum_dependencies; C11-generic-arg-depth and C11-special-id-collision in the Generic arm of
+    get_dependencies_from_type, fix 25) and of Props.C11_*_fixed. They are outside every class now and must PASS: a
     definition emitted before one it refers to is a plain violation (regression)."""
     B, C = ir.simple('B'), ir.simple('C')
+    G1 = lambda nm='G': _struct(nm, [ir.simple('T')], ['T'])
+    u8 = ir.special('U8')
     return [
+        # ---- fix 25 (Props.C11_generic_arg_depth_fixed, _own_name_fixed, _nested_fixed, C11_special_id_collision_fixed)
+        ('C11-generic-arg-depth', [_struct('A', [ir.generic('Unknown', [B])]), _struct('B', [])]),       # struct A { f: Unknown<B> }  struct B {}
+        ('C11-generic-arg-depth', [_struct('Foo', [ir.generic('Foo', [ir.simple('Zed')])], ['T']), _struct('Zed', [])]),   # struct Foo<T> { f: Foo<Zed> }
+        ('C11-generic-arg-depth', [_struct('A', [ir.generic('G', [ir.special('Vec', B)]),
+                                                 ir.special('Option', ir.generic('G', [ir.generic('G', [ir.special('HashMap', ir.special('String'), C)])]))]),
+                                   _struct('B', []), _struct('C', []), G1()]),                            # A { f: G<Vec<B>>, g: Option<G<G<HashMap<String, C>>>> }
+        ('C11-generic-arg-depth', [{'kind': 'alias', 'id': ir.mk_id('A'), 'generics': [], 'ty': ir.generic('Unknown', [ir.special('String'), ir.special('Vec', B)]),
+                                    'comments': [], 'decorators': [], 'is_redacted': False},
+                                   _struct('B', [C]), _struct('C', [])]),                                 # type A = Unknown<String, Vec<B>>;  B { f: C }
+        ('C11-generic-arg-depth', [_enum('E', [('tuple', ir.generic('Unknown', [B])), ('struct', [ir.generic('E', [C])])], ['T']), _struct('B', []), _struct('C', [])]),
+        ('C11-generic-arg-depth', [{'kind': 'const', 'id': ir.mk_id('K'), 'ty': ir.generic('Unknown', [ir.generic('Other', [ir.simple('Z')])]), 'value': '7'},
+                                   _struct('Z', [])]),                                                    # const K: Unknown<Other<Z>>  struct Z {}
+        ('C11-special-id-collision', [_struct('A', [ir.generic('G', [ir.special('Vec', u8)]), B]), _struct('B', []), G1(), _struct('Vec', [ir.simple('A')])]),
+        ('C11-special-id-collision', [_struct('A', [ir.generic('G', [ir.special('Option', u8)]), B]), _struct('B', []), G1(), _struct('Option', [ir.simple('A')])]),
+        ('C11-special-id-collision', [_struct('A', [ir.generic('G', [ir.special('HashMap', ir.special('String'), u8)]), B]), _struct('B', []), G1(),
+                                      _struct('HashMap', [ir.simple('A')])]),
+        ('C11-special-id-collision', [_struct('A', [ir.generic('G', [ir.special('String')]), B]), _struct('B', []), G1(), _struct('String', [ir.simple('A')])]),
+        ('C11-special-id-collision', [_struct('A', [ir.generic('G', [u8]), B]), _struct('B', []), G1(), _struct('u8', [ir.special('Vec', ir.simple('A'))])]),
+        ('C11-special-id-collision', [_enum('A', [('tuple', ir.generic('G', [ir.special('Vec', u8)])), ('struct', [B])]), _struct('B', []), G1(),
+                                      _struct('Vec', [ir.simple('A')])]),
+        # ---- the repair of get_enum_dependencies
         ('C11-variant-fields', [_enum('E', [('struct', [B])]), _struct('B', [])]),                      # enum E { V { f: B } }  struct B {}
         ('C11-enum-self-edge', [_enum('E', [('tuple', B)]), _struct('B', [])]),                          # enum E { V(B) }  struct B {}
         ('C11-enum-self-edge', [_enum('A', [('tuple', B)]), _enum('B', [('tuple', C), ('unit',)]), _enum('C', [('unit',), ('struct', [ir.special('U8')])])]),  # enum A { V(B) }, enum B { .. }
@@ -217,8 +255,9 @@ SPECIAL_IDS = [('Vec', lambda: ir.special('Vec', ir.special('U8'))), ('Option', 
 
 def gen_lookalike(rng):
     """Directed shapes: names the collectors look up although they denote something else (a generic
-    parameter, the id() of a special type), a generic mentioning itself, alias generics, a const named
-    like a struct - each embedded in a small random acyclic context and fed in any kind-sorted order."""
+    parameter), names they used to look up before fix 25 (the id() of a special type standing as a generic
+    argument: ordinary item names now, the shapes must PASS), a generic mentioning itself, alias generics, a
+    const named like a struct - each embedded in a small random acyclic context and fed in any kind-sorted order."""
     fld = lambda i, t: {'id': ir.mk_id(f'f{i}'), 'ty': t, 'comments': [], 'has_default': False, 'decorators': []}
     st = lambda nm, tys, gens=(): {'kind': 'struct', 'id': ir.mk_id(nm), 'generics': list(gens), 'fields': [fld(i, t) for i, t in enumerate(tys)],
                                    'comments': [], 'decorators': [], 'is_redacted': False}
@@ -230,10 +269,10 @@ def gen_lookalike(rng):
                         'eparam', 'especial', 'eown', 'echain'])
     if shape == 'param':        # struct a<T> { f: T, g: b }, item T uses a
         items = [st(a, [ir.simple('T'), ir.simple(b)], ['T']), st(b, []), user('T', ir.generic(a, [ir.special('U8')]))]
-    elif shape == 'special':    # a { f: g<Vec<u8>> }, g<T>, an item named Vec that uses a
+    elif shape == 'special':    # a { f: g<Vec<u8>> }, g<T>, an item named Vec that uses a: outside every class since fix 25
         nm, mk = rng.choice(SPECIAL_IDS)
         items = [st(a, [ir.generic(g, [mk()]), ir.simple(b)]), st(b, []), st(g, [ir.simple('T')], ['T']), user(nm, ir.simple(a))]
-    elif shape == 'own':        # struct a<T> { f: a<b> }: the arguments of a Generic named like the collecting item
+    elif shape == 'own':        # struct a<T> { f: a<b> }: the arguments of a Generic named like the collecting item (followed since fix 25)
         items = [st(a, [ir.generic(a, [ir.simple(b)]), ir.simple('T')], ['T']), st(b, [])]
     elif shape == 'alias':      # type a<T> = Vec<T>; item T uses a
         items = [al(a, ir.special('Vec', ir.simple('T')), ['T']), user('T', ir.generic(a, [ir.special('U8')]))]
@@ -249,11 +288,11 @@ def gen_lookalike(rng):
         pv = rng.choice([('tuple', ir.simple('T')), ('struct', [ir.simple('T')])])
         items = [_enum(a, [pv, rng.choice([('tuple', ir.simple(b)), ('struct', [ir.simple(b)])]), ('unit',)], ['T']), st(b, []),
                  user('T', ir.generic(a, [ir.special('U8')]))]
-    elif shape == 'especial':   # enum a { V(g<Vec<u8>>), W { f: b } }, g<T>, an item named Vec that uses a
+    elif shape == 'especial':   # enum a { V(g<Vec<u8>>), W { f: b } }, g<T>, an item named Vec that uses a: outside every class since fix 25
         nm, mk = rng.choice(SPECIAL_IDS)
         items = [_enum(a, [rng.choice([('tuple', ir.generic(g, [mk()])), ('struct', [ir.generic(g, [mk()])])]), ('struct', [ir.simple(b)])]), st(b, []),
                  st(g, [ir.simple('T')], ['T']), user(nm, ir.simple(a))]
-    elif shape == 'eown':       # enum a<T> { V(a<b>) }: the arguments of a Generic named like the collecting enum
+    elif shape == 'eown':       # enum a<T> { V(a<b>) }: the arguments of a Generic named like the collecting enum (followed since fix 25)
         items = [_enum(a, [rng.choice([('tuple', ir.generic(a, [ir.simple(b)])), ('struct', [ir.generic(a, [ir.simple(b)])])]), ('tuple', ir.simple('T'))], ['T']), st(b, [])]
     elif shape == 'echain':     # enums referring to enums through both variant shapes and containers: outside every class
         mkv = lambda t: rng.choice([('tuple', t), ('struct', [t]), ('struct', [ir.special('U8'), t]), ('tuple', ir.special('Vec', t)),
@@ -290,8 +329,9 @@ def ts_definitions(text):
 
 def chain_program(rng):
     """a single-crate program whose natural order (aliases, structs, enums; alphabetical inside each kind) is NOT topological:
-    a DAG over 4-7 definitions of mixed kinds, references by plain name (no generics, no renames, no shadowing: outside every
-    recorded class), names drawn so that users sort BEFORE what they use"""
+    a DAG over 4-7 definitions of mixed kinds, references by plain name, also as (nested) arguments of a generic type that
+    is not typeshared (Paged<T>, Paged<String, Vec<T>>: followed since fix 25); no renames, no shadowing: outside every
+    recorded class; names drawn so that users sort BEFORE what they use"""
     import re
     n = rng.randint(4, 7)
     names = sorted(rng.sample(['Alpha', 'Bravo', 'Canvas', 'Delta', 'Echo', 'Frame', 'Golf', 'Hotel', 'India', 'Layer', 'Outline', 'Paint', 'Point', 'Rgb', 'Zeta'], n))
@@ -300,7 +340,8 @@ def chain_program(rng):
     for k, (nm, kd) in enumerate(zip(names, kinds)):
         later = names[k + 1:]           # uses only LATER names: acyclic, and anti-alphabetical
         uses = rng.sample(later, min(len(later), rng.choice([0, 1, 1, 2])))
-        wrap = lambda t: rng.choice(['{}', 'Vec<{}>', 'Option<{}>', 'HashMap<String, {}>', '[{}; 2]', 'Box<{}>']).format(t)
+        wrap = lambda t: rng.choice(['{}', 'Vec<{}>', 'Option<{}>', 'HashMap<String, {}>', '[{}; 2]', 'Box<{}>',
+                                     'Paged<{}>', 'Paged<String, Vec<{}>>', 'Vec<Paged<Option<{}>>>']).format(t)
         if kd == 'struct':
             fs = ''.join(f'    pub f{j}: {wrap(u)},\n' for j, u in enumerate(uses)) or '    pub x: u8,\n'
             items.append(f'#[typeshare]\npub struct {nm} {{\n{fs}}}\n')
@@ -355,12 +396,14 @@ def run(chk):
     chk.rule = ('(a) toposort_impl: every graph on <=3 (quick) / <=4 (thorough) nodes with sorted rows incl. self-loops, plus seeded graphs to 12 nodes '
                 '(DAGs and cyclic, duplicate/unsorted rows, a few out-of-range entries); (b) sort_by_indices: every permutation of <=6 (quick) / <=7 '
                 'elements, random ones to 40, and non-permutations; (c) topsort on seeded item sets of 2-12 items of every kind with references '
-                'placed in fields, tuple and struct variants, alias targets, const types, through Vec/array/slice/Option/HashMap/generic '
-                'arguments, by original or renamed name, DAGs and cycles; in a share of the sets an item is named like a generic parameter (T) or like '
+                'placed in fields, tuple and struct variants, alias targets, const types, through Vec/array/slice/Option/HashMap and the arguments of generic '
+                'types (typeshared or not, first or later argument, nested in each other and in containers), by original or renamed name, DAGs and cycles; '
+                'in a share of the sets an item is named like a generic parameter (T) or like '
                 'the id() of a special type (Vec, Option, HashMap, String, u8), a generic struct mentions itself with arguments, an alias has a '
                 'generic parameter (named like an item or not), a const shares the name of another item; plus directed sets built around each of these shapes '
                 '(for structs and for algebraic enums; and harmless look-alikes that are outside every class) in a random acyclic context; plus the former '
-                'witnesses of the repaired classes C11-variant-fields / C11-enum-self-edge, which must pass. Verdict on the REAL order by the extracted good_C11; '
+                'witnesses of the repaired classes C11-variant-fields / C11-enum-self-edge / C11-generic-arg-depth / C11-special-id-collision, which must pass. '
+                'Verdict on the REAL order by the extracted good_C11; '
                 'on sets outside the classes the extracted model must itself satisfy good_C11 (theorem C11_topsort_good). (d) the generators\' use of it: seeded single-crate programs whose natural order is anti-topological through the REAL BINARY in single-file (-o) and folder (--output-folder) mode, TypeScript: emitted definitions = a permutation, every definition after the ones its text refers to. non-trivial = distinct inputs with at least one edge / non-identity')
     chk.assumptions = ['the hooks core::verif_hooks::{toposort_impl,sort_by_indices,topsort} are thin wrappers (MANIFEST.hooks)']
     chk.prepare(need_cli=True)
@@ -368,8 +411,6 @@ def run(chk):
         return
     rng = chk.rng
     corr = []
-    if chk.cli_ok:
-        phase_generators(chk, 40 if chk.tier == 'quick' else 600)
 
     # ---- (a) toposort_impl
     graphs = []
@@ -471,7 +512,7 @@ def run(chk):
             chk.count('pinned_former_witnesses')
             if known is not None or not acyc:
                 chk.violation(f'pinned-{k}', payload, f'former witness of the repaired class {pins[k][0]} is classified {known!r} / acyclic={acyc} by the extracted spec: '
-                              'Spec/C11Spec.v no longer matches the repaired get_enum_dependencies', no_input=True)
+                              'Spec/C11Spec.v no longer matches the repaired collectors of topsort.rs', no_input=True)
         chk.count('sets_acyclic' if acyc else 'sets_cyclic')
         if oi[0] != 'ok':
             chk.violation(f'topsort-{k}', payload, f'topsort {oi[0]}s on an item set')
@@ -503,6 +544,9 @@ def run(chk):
     if proof_broken:
         chk.violation('theorem', {'theorem': 'Props/C11.v C11_topsort_good', 'cases': proof_broken[:4]},
                       'the extracted model contradicts theorem C11_topsort_good (known_C11 = None, yet good_C11 fails on the model output): proof, extraction or driver broken', no_input=True)
+    # ---- (d) the generators' use of topsort through the real binary (after (c): the pinned former witnesses are reported first)
+    if chk.cli_ok:
+        phase_generators(chk, 40 if chk.tier == 'quick' else 600)
     chk.count('correspondence_mismatches', len(corr))
     if corr and not [v for v in chk.violations if not v[2]]:
         chk.violation('correspondence', {'correspondence': 'Model/TopsortAlgo.v + Model/Topsort.v vs core::verif_hooks', 'cases': corr[:8]},
